@@ -41,6 +41,94 @@ fn arr<F: HF>(rows: &[Vec<f64>], d: usize) -> Array2<F> {
 fn vec64<F: HF>(a: &Array1<F>) -> Vec<f64> { a.iter().map(|v| v.to64()).collect() }
 
 // ------------------------------------------------------------------------------------------------
+// memory layouts: the SAME logical matrix presented in seven ways
+// ------------------------------------------------------------------------------------------------
+#[derive(Clone, Copy, Debug, PartialEq)]
+enum Lay { Std, ColMajor, RevRowsView, RevColsView, RevRowsOwned, RevColsOwned, Strided }
+const LAYS: [Lay; 7] = [Lay::Std, Lay::ColMajor, Lay::RevRowsView, Lay::RevColsView, Lay::RevRowsOwned, Lay::RevColsOwned, Lay::Strided];
+impl Lay {
+    fn name(self) -> &'static str {
+        match self { Lay::Std => "std", Lay::ColMajor => "colmajor", Lay::RevRowsView => "revrows_view", Lay::RevColsView => "revcols_view",
+                     Lay::RevRowsOwned => "revrows_owned", Lay::RevColsOwned => "revcols_owned", Lay::Strided => "strided2" }
+    }
+    fn rot(k: u64) -> Lay { LAYS[(k % 7) as usize] }
+}
+/// a backing array and the recipe that gives the logical matrix back
+struct Laid<F: HF> { backing: Array2<F>, lay: Lay }
+impl<F: HF> Laid<F> {
+    fn new(rows: &[Vec<f64>], d: usize, lay: Lay) -> Laid<F> {
+        let n = rows.len();
+        let backing = match lay {
+            Lay::Std => arr::<F>(rows, d),
+            Lay::ColMajor => {
+                use ndarray::ShapeBuilder;
+                let mut v = Vec::with_capacity(n * d);
+                for j in 0..d { for r in rows { v.push(F::of64(r[j])); } }
+                Array2::from_shape_vec((n, d).f(), v).unwrap()
+            }
+            Lay::RevRowsView | Lay::RevRowsOwned => { let rr: Vec<Vec<f64>> = rows.iter().rev().cloned().collect(); arr::<F>(&rr, d) }
+            Lay::RevColsView | Lay::RevColsOwned => { let rr: Vec<Vec<f64>> = rows.iter().map(|r| r.iter().rev().cloned().collect()).collect(); arr::<F>(&rr, d) }
+            Lay::Strided => {
+                // every second row and every second column of a (2n x 2d) array; the rest is junk
+                let mut a = Array2::from_elem((2 * n, 2 * d), F::of64(-7.25e7));
+                for (i, r) in rows.iter().enumerate() { for j in 0..d { a[(2 * i, 2 * j)] = F::of64(r[j]); a[(2 * i + 1, 2 * j)] = F::of64(r[j] + 1.0); } }
+                a
+            }
+        };
+        let l = Laid { backing, lay };
+        debug_assert!(l.view().nrows() == n);
+        l
+    }
+    fn view(&self) -> ndarray::ArrayView2<F> {
+        use ndarray::s;
+        match self.lay {
+            Lay::Std | Lay::ColMajor => self.backing.view(),
+            Lay::RevRowsView | Lay::RevRowsOwned => self.backing.slice(s![..;-1, ..]),
+            Lay::RevColsView | Lay::RevColsOwned => self.backing.slice(s![.., ..;-1]),
+            Lay::Strided => self.backing.slice(s![..;2, ..;2]),
+        }
+    }
+    /// the owned presentations: the array itself (row-major, column-major) or `.to_owned()` of the reversed
+    /// view, which keeps the negative strides
+    fn owned(&self) -> Option<Array2<F>> {
+        match self.lay {
+            Lay::Std | Lay::ColMajor | Lay::RevRowsOwned | Lay::RevColsOwned => Some(self.view().to_owned()),
+            _ => None,
+        }
+    }
+    /// are the column views contiguous (`as_slice()` succeeds)? decides which ndarray dot kernel `diff.dot(x)` takes
+    fn cols_contiguous(&self) -> bool {
+        let v = self.view();
+        (0..v.ncols()).all(|j| v.column(j).as_slice().is_some())
+    }
+}
+/// run `$body` with `$r` bound to the records in their layout: an owned array or a view
+macro_rules! with_recs {
+    ($laid:expr, $r:ident => $body:expr) => {
+        match $laid.owned() { Some($r) => { $body } None => { let $r = $laid.view(); $body } }
+    };
+}
+/// targets in three presentations of the same logical vector: standard, reversed view, every second element
+struct LaidT<T: Clone> { backing: Array1<T>, kind: u64 }
+impl<T: Clone> LaidT<T> {
+    fn new(y: &[T], kind: u64, junk: T) -> LaidT<T> {
+        let backing = match kind % 3 {
+            0 => Array1::from(y.to_vec()),
+            1 => Array1::from(y.iter().rev().cloned().collect::<Vec<T>>()),
+            _ => { let mut v = Vec::with_capacity(2 * y.len()); for t in y { v.push(t.clone()); v.push(junk.clone()); } Array1::from(v) }
+        };
+        LaidT { backing, kind: kind % 3 }
+    }
+    fn view(&self) -> ndarray::ArrayView1<T> {
+        use ndarray::s;
+        match self.kind { 0 => self.backing.view(), 1 => self.backing.slice(s![..;-1]), _ => self.backing.slice(s![..;2]) }
+    }
+}
+fn tlay_name(kind: u64) -> &'static str { match kind % 3 { 0 => "std", 1 => "rev_view", _ => "strided2" } }
+const SCALES: [i32; 5] = [0, -40, -20, 20, 40];
+fn scale_rows(x: &mut [Vec<f64>], k: i32) { let s = 2f64.powi(k); for r in x.iter_mut() { for v in r.iter_mut() { *v *= s; } } }
+
+// ------------------------------------------------------------------------------------------------
 // naive Bayes
 // ------------------------------------------------------------------------------------------------
 #[derive(Clone, Debug)]
@@ -64,14 +152,24 @@ impl<F: HF> NbModel<F> {
     fn state(&self) -> Vec<Info> {
         match self { NbModel::G(m) => read_state::<F, _>(m), NbModel::M(m) => read_state::<F, _>(m) }
     }
-    fn predict(&self, q: &Array2<F>) -> Vec<Option<usize>> {
-        // row by row: a NaN likelihood makes `argmax().unwrap()` panic - an observation (None), not a crash
+    /// predict on the whole (laid-out) query matrix at once; None when it panics
+    fn predict_all<S: ndarray::Data<Elem = F>>(&self, q: &ndarray::ArrayBase<S, ndarray::Ix2>) -> Option<Vec<usize>> {
+        let qv = q.view();
+        let r = match self {
+            NbModel::G(m) => { let m = m.clone(); guarded(std::panic::AssertUnwindSafe(move || m.predict(&qv).to_vec())) }
+            NbModel::M(m) => { let m = m.clone(); guarded(std::panic::AssertUnwindSafe(move || m.predict(&qv).to_vec())) }
+        };
+        r.ok()
+    }
+    fn predict<S: ndarray::Data<Elem = F>>(&self, q: &ndarray::ArrayBase<S, ndarray::Ix2>) -> Vec<Option<usize>> {
+        // row by row: a NaN likelihood makes `argmax().unwrap()` panic - an observation (None), not a crash;
+        // the one-row slice keeps the column stride of the query matrix's layout
         (0..q.nrows())
             .map(|i| {
-                let qi = q.slice(ndarray::s![i..i + 1, ..]).to_owned();
+                let qi = q.slice(ndarray::s![i..i + 1, ..]);
                 let r = match self {
-                    NbModel::G(m) => { let m = m.clone(); guarded(move || m.predict(&qi)[0]) }
-                    NbModel::M(m) => { let m = m.clone(); guarded(move || m.predict(&qi)[0]) }
+                    NbModel::G(m) => { let m = m.clone(); guarded(std::panic::AssertUnwindSafe(move || m.predict(&qi)[0])) }
+                    NbModel::M(m) => { let m = m.clone(); guarded(std::panic::AssertUnwindSafe(move || m.predict(&qi)[0])) }
                 };
                 r.ok()
             })
@@ -79,34 +177,41 @@ impl<F: HF> NbModel<F> {
     }
 }
 
-fn nb_history<F: HF>(multi: bool, param: f64, x: &[Vec<f64>], y: &[usize], d: usize, cuts: &[usize]) -> Result<NbModel<F>, String> {
+/// every batch of a history is presented in its own layout: batch b of history `rot0` takes layout (rot0 + b) mod 7
+/// and target presentation (rot0 + b) mod 3
+fn nb_history<F: HF>(multi: bool, param: f64, x: &[Vec<f64>], y: &[usize], d: usize, cuts: &[usize], rot0: u64, used: &mut BTreeMap<&'static str, u64>) -> Result<NbModel<F>, String> {
     let mut pos = 0;
     if multi {
         let params = MultinomialNb::<F, usize>::params().alpha(F::of64(param));
         let mut model: Option<MultinomialNb<F, usize>> = None;
-        for &c in cuts {
-            let ds = Dataset::new(arr::<F>(&x[pos..pos + c], d), Array1::from(y[pos..pos + c].to_vec()));
-            model = params.fit_with(model, &ds).map_err(|e| format!("{}", e))?;
+        for (b, &c) in cuts.iter().enumerate() {
+            let laid = Laid::<F>::new(&x[pos..pos + c], d, Lay::rot(rot0 + b as u64));
+            let ty = LaidT::new(&y[pos..pos + c], rot0 + b as u64, usize::MAX);
+            *used.entry(laid.lay.name()).or_insert(0) += 1;
+            model = with_recs!(laid, r => params.fit_with(model, &DatasetBase::new(r, ty.view()))).map_err(|e| format!("{}", e))?;
             pos += c;
         }
         model.map(NbModel::M).ok_or_else(|| "no model".to_string())
     } else {
         let params = GaussianNb::<F, usize>::params().var_smoothing(F::of64(param));
         let mut model: Option<GaussianNb<F, usize>> = None;
-        for &c in cuts {
-            let ds = Dataset::new(arr::<F>(&x[pos..pos + c], d), Array1::from(y[pos..pos + c].to_vec()));
-            model = params.fit_with(model, &ds).map_err(|e| format!("{}", e))?;
+        for (b, &c) in cuts.iter().enumerate() {
+            let laid = Laid::<F>::new(&x[pos..pos + c], d, Lay::rot(rot0 + b as u64));
+            let ty = LaidT::new(&y[pos..pos + c], rot0 + b as u64, usize::MAX);
+            *used.entry(laid.lay.name()).or_insert(0) += 1;
+            model = with_recs!(laid, r => params.fit_with(model, &DatasetBase::new(r, ty.view()))).map_err(|e| format!("{}", e))?;
             pos += c;
         }
         model.map(NbModel::G).ok_or_else(|| "no model".to_string())
     }
 }
-fn nb_batch<F: HF>(multi: bool, param: f64, x: &[Vec<f64>], y: &[usize], d: usize) -> Result<NbModel<F>, String> {
-    let ds = Dataset::new(arr::<F>(x, d), Array1::from(y.to_vec()));
+fn nb_batch<F: HF>(multi: bool, param: f64, x: &[Vec<f64>], y: &[usize], d: usize, lay: Lay, tkind: u64) -> Result<NbModel<F>, String> {
+    let laid = Laid::<F>::new(x, d, lay);
+    let ty = LaidT::new(y, tkind, usize::MAX);
     if multi {
-        MultinomialNb::<F, usize>::params().alpha(F::of64(param)).fit(&ds).map(NbModel::M).map_err(|e| format!("{}", e))
+        with_recs!(laid, r => MultinomialNb::<F, usize>::params().alpha(F::of64(param)).fit(&DatasetBase::new(r, ty.view()))).map(NbModel::M).map_err(|e| format!("{}", e))
     } else {
-        GaussianNb::<F, usize>::params().var_smoothing(F::of64(param)).fit(&ds).map(NbModel::G).map_err(|e| format!("{}", e))
+        with_recs!(laid, r => GaussianNb::<F, usize>::params().var_smoothing(F::of64(param)).fit(&DatasetBase::new(r, ty.view()))).map(NbModel::G).map_err(|e| format!("{}", e))
     }
 }
 
@@ -216,6 +321,16 @@ fn gen_nb_data(r: &mut Sm64, multi: bool, n: usize, d: usize, nc: usize, fam: u6
     (x, y, exact)
 }
 
+/// joint log-likelihood of one class recomputed in f64 from the stored statistics (to recognise near-ties)
+fn jll_f64(multi: bool, i: &Info, q: &[f64]) -> f64 {
+    if multi {
+        q.iter().zip(&i.v2).map(|(x, lp)| x * lp).sum::<f64>() + i.prior.ln()
+    } else {
+        let a: f64 = i.v2.iter().map(|s| (2.0 * std::f64::consts::PI * s).ln()).sum::<f64>();
+        let b: f64 = q.iter().zip(i.v1.iter().zip(&i.v2)).map(|(x, (t, s))| (x - t) * (x - t) / s).sum::<f64>();
+        -0.5 * a - 0.5 * b + i.prior.ln()
+    }
+}
 fn rel_close(a: f64, b: f64, rel: f64) -> bool {
     (a - b).abs() <= rel * (1.0 + a.abs() + b.abs())
 }
@@ -272,6 +387,11 @@ fn nb_case<F: HF>(out: &mut Out, id: u64, r: &mut Sm64, exhaustive: bool, thorou
     }
     let ntot = x.len();
     if F::F32 && multi && x.iter().map(|r| r.iter().sum::<f64>()).sum::<f64>() >= 16777216.0 { exact = false; }
+    // robustness sweep: the scale (a power of two, exact) rotates with the case id, the layouts with id / history / batch
+    let sk: i32 = [0, -40, 0, -20, 20, 0, 40][(id % 7) as usize];
+    let blay = Lay::rot(r.below(7));
+    let qlay = Lay::rot(r.below(7));
+    let btk = r.below(3);
     let cutsets: Vec<Vec<usize>> = if exhaustive {
         compositions(ntot)
     } else if copies > 1 {
@@ -294,10 +414,16 @@ fn nb_case<F: HF>(out: &mut Out, id: u64, r: &mut Sm64, exhaustive: bool, thorou
             _ => q.push(x[r.below(ntot as u64) as usize].iter().map(|v| rnd::<F>(if multi { (v + r.below(3) as f64).abs() } else { v + r.gauss() })).collect()),
         }
     }
-    let qa = arr::<F>(&q, d);
+    // scaling by 2^sk is exact in both element types (no datum leaves the normal range); the multinomial alpha is a
+    // count and is scaled with the counts, var_smoothing is relative and is not
+    scale_rows(&mut x, sk);
+    scale_rows(&mut q, sk);
+    let param = if multi { rnd::<F>(param * 2f64.powi(sk)) } else { param };
+    let qlaid = Laid::<F>::new(&q, d, qlay);
 
     // epsilon classes of finding F12 (decidable from the input alone; exact binary64 arithmetic on the data suffices)
-    let mut tags: Vec<String> = vec![if multi { "mnb".into() } else { "gnb".into() }, format!("fam_{}", fam), if F::F32 { "f32".into() } else { "f64".into() }];
+    let mut tags: Vec<String> = vec![if multi { "mnb".into() } else { "gnb".into() }, format!("fam_{}", fam), if F::F32 { "f32".into() } else { "f64".into() },
+                                     format!("scale_{}", sk), format!("lay_{}", blay.name()), format!("qlay_{}", qlay.name()), "hist_layouts_rotating".into()];
     let eps_of = |rows: &[Vec<f64>]| -> f64 { param * *arr::<f64>(rows, d).var_axis(Axis(0), 0.0).max().unwrap_or(&f64::NAN) };
     let mut eps_differ = false;
     if !multi {
@@ -315,30 +441,58 @@ fn nb_case<F: HF>(out: &mut Out, id: u64, r: &mut Sm64, exhaustive: bool, thorou
     }
     let nclasses_present = { let mut l = y.clone(); l.sort(); l.dedup(); l.len() };
     let desc = format!(
-        "{{\"learner\": {}, \"float\": {}, \"n\": {}, \"d\": {}, \"classes\": {}, \"param\": {:e}, \"family\": {}, \"order\": {}, \"copies\": {}, \"histories\": {}, \"exhaustive\": {}, \"X_first_row\": {:?}, \"y\": {:?}}}",
-        jstr(if multi { "multinomial_nb" } else { "gaussian_nb" }), jstr(if F::F32 { "f32" } else { "f64" }), ntot, d, nclasses_present, param, fam, order, copies, cutsets.len(), exhaustive, x[0], &y[..std::cmp::min(y.len(), 24)]
+        "{{\"learner\": {}, \"float\": {}, \"scale_log2\": {}, \"single_fit_layout\": {}, \"single_fit_targets\": {}, \"query_layout\": {}, \"history_layouts\": \"batch b of history h: layout (id+h+b) mod 7 of [std, colmajor, revrows_view, revcols_view, revrows_owned, revcols_owned, strided2], targets (id+h+b) mod 3 of [std, rev_view, strided2]\", \"n\": {}, \"d\": {}, \"classes\": {}, \"param\": {:e}, \"family\": {}, \"order\": {}, \"copies\": {}, \"histories\": {}, \"exhaustive\": {}, \"X_first_row\": {:?}, \"y\": {:?}}}",
+        jstr(if multi { "multinomial_nb" } else { "gaussian_nb" }), jstr(if F::F32 { "f32" } else { "f64" }), sk, jstr(blay.name()), jstr(tlay_name(btk)), jstr(qlay.name()), ntot, d, nclasses_present, param, fam, order, copies, cutsets.len(), exhaustive, x[0], &y[..std::cmp::min(y.len(), 24)]
     );
     out.bump(if multi { "nb_multinomial" } else { "nb_gaussian" });
     out.bump(if F::F32 { "nb_f32" } else { "nb_f64" });
+    out.bump(&format!("nb_scale_2^{}", sk));
+    out.bump(&format!("nb_single_fit_layout_{}", blay.name()));
+    out.bump(&format!("nb_single_fit_targets_{}", tlay_name(btk)));
+    out.bump(&format!("nb_query_layout_{}", qlay.name()));
     out.bump(if exhaustive { "nb_exhaustive_compositions" } else { "nb_random_cuts" });
     out.bump(&format!("nb_classes_{}", nclasses_present));
     if twin { out.bump("nb_twin_classes_exact_ties"); }
     if !multi { out.bump(if param > 0.0 { if eps_differ { "gnb_vs_pos_eps_differ" } else { "gnb_vs_pos_eps_equal" } } else { "gnb_vs_zero" }); }
     let tagrefs: Vec<&str> = tags.iter().map(|s| s.as_str()).collect();
 
-    let batch = match nb_batch::<F>(multi, param, &x, &y, d) {
+    let batch = match nb_batch::<F>(multi, param, &x, &y, d, blay, btk) {
         Ok(m) => m,
         Err(e) => { out.rust_fail(id, 1 << 20, &tagrefs, &format!("batch fit failed on valid data: {}", e), &desc); out.rust_eval(&desc, None); return; }
     };
     let bstate = batch.state();
-    let bpred = batch.predict(&qa);
+    let bpred = with_recs!(qlaid, qa => batch.predict(&qa));
+    // the whole laid-out query matrix at once must answer like its rows one by one
+    // (ndarray's `sum_axis` / `sum` legitimately add the terms of a row in memory order for some layouts - e.g. reversed
+    // columns - so the two answers may differ where the two best joint log-likelihoods agree to rounding: such
+    // near-ties, recognised by an f64 recomputation from the stored statistics with the relative window of the
+    // batch-vs-history oracle, are accepted)
+    let check_all = |m: &NbModel<F>, st: &[Info], rowwise: &[Option<usize>], out: &mut Out, what: &str| {
+        if rowwise.iter().all(|p| p.is_some()) {
+            let all = with_recs!(qlaid, qa => m.predict_all(&qa));
+            let want: Vec<usize> = rowwise.iter().map(|p| p.unwrap()).collect();
+            let near_tie = |got: &Vec<usize>| -> bool {
+                got.len() == want.len() && got.iter().zip(&want).zip(&q).all(|((g, w), qi)| g == w || {
+                    match (st.iter().find(|i| i.label == *g), st.iter().find(|i| i.label == *w)) {
+                        (Some(ig), Some(iw)) => rel_close(jll_f64(multi, ig, qi), jll_f64(multi, iw, qi), if F::F32 { 1.0 / 256.0 } else { 1.0 / 1048576.0 }),
+                        _ => false,
+                    }
+                })
+            };
+            if all.as_ref() != Some(&want) && !all.as_ref().map_or(false, near_tie) {
+                out.rust_fail(id, 1 << 25, &tagrefs, &format!("predict on the whole query matrix (layout {}) gives {:?}, row by row {:?} ({})", qlay.name(), all, want, what), &desc);
+            }
+        }
+    };
+    check_all(&batch, &bstate, &bpred, out, "single fit");
+    let mut used: BTreeMap<&'static str, u64> = BTreeMap::new();
     let mut tab = LnTab(BTreeMap::new());
     tab.add_state::<F>(multi, param, &bstate);
     let mut hists: Vec<String> = Vec::new();
     let mut incomplete = 0u64;
     let mut nbatches = 0u64;
     for (hi, cuts) in cutsets.iter().enumerate() {
-        let model = match nb_history::<F>(multi, param, &x, &y, d, cuts) {
+        let model = match nb_history::<F>(multi, param, &x, &y, d, cuts, id + hi as u64, &mut used) {
             Ok(m) => m,
             Err(e) => { out.rust_fail(id, 1 << 20, &tagrefs, &format!("fit_with failed on valid batches {:?}: {}", cuts, e), &desc); out.rust_eval(&desc, None); return; }
         };
@@ -347,7 +501,9 @@ fn nb_case<F: HF>(out: &mut Out, id: u64, r: &mut Sm64, exhaustive: bool, thorou
         // intermediate states of the multinomial model take logarithms too (their results are overwritten or kept)
         let pred = if hi < 2 || (!exhaustive && hi < 4) {
             if !multi { tab.add_state::<F>(multi, param, &st); }
-            clist(&model.predict(&qa), optn)
+            let hp = with_recs!(qlaid, qa => model.predict(&qa));
+            if hi < 2 { check_all(&model, &st, &hp, out, "history"); }
+            clist(&hp, optn)
         } else { "[]".into() };
         let mut pos = 0;
         for &c in cuts {
@@ -374,6 +530,7 @@ fn nb_case<F: HF>(out: &mut Out, id: u64, r: &mut Sm64, exhaustive: bool, thorou
             cvecn(cuts), clist(&st, info_term), pred
         ));
     }
+    for (k, v) in &used { out.bump_by(&format!("nb_batch_layout_{}", k), *v); }
     out.bump_by("nb_histories", cutsets.len() as u64);
     out.bump_by("nb_batches", nbatches);
     out.bump_by("nb_class_incomplete_batches", incomplete);
@@ -394,17 +551,22 @@ enum Met { L1, L2, Linf }
 
 struct KStep { x: Vec<Vec<f64>>, centroids: Vec<Vec<f64>>, counts: Vec<f64>, inertia: f64, ok: bool }
 
+/// batch b is presented in layout (rot0 + b) mod 7; `init_f`: the Precomputed centroids are a column-major array
 fn km_run<F: HF, D: Distance<F> + Clone + std::fmt::Debug + 'static>(
-    dist: D, k: usize, init: Option<&Vec<Vec<f64>>>, seed: u64, tol: f64, d: usize, batches: &[Vec<Vec<f64>>],
+    dist: D, k: usize, init: Option<&Vec<Vec<f64>>>, init_f: bool, rot0: u64, seed: u64, tol: f64, d: usize, batches: &[Vec<Vec<f64>>],
 ) -> Result<Vec<KStep>, String> {
     let rng = Xoshiro256Plus::seed_from_u64(seed);
-    let im = match init { Some(c) => KMeansInit::Precomputed(arr::<F>(c, d)), None => KMeansInit::Random };
+    let im = match init {
+        Some(c) => KMeansInit::Precomputed(Laid::<F>::new(c, d, if init_f { Lay::ColMajor } else { Lay::Std }).backing),
+        None => KMeansInit::Random,
+    };
     let params = KMeans::params_with(k, rng, dist).tolerance(F::of64(tol)).n_runs(1).init_method(im);
     let mut model: Option<KMeans<F, D>> = None;
     let mut steps = Vec::new();
-    for b in batches {
-        let ds = DatasetBase::from(arr::<F>(b, d));
-        let (m, ok) = match params.fit_with(model, &ds) {
+    for (bi, b) in batches.iter().enumerate() {
+        let laid = Laid::<F>::new(b, d, Lay::rot(rot0 + bi as u64));
+        let res = with_recs!(laid, r => params.fit_with(model, &DatasetBase::from(r)));
+        let (m, ok) = match res {
             Ok(m) => (m, true),
             Err(IncrKMeansError::NotConverged(m)) => (m, false),
             Err(e) => return Err(format!("{}", e)),
@@ -420,19 +582,23 @@ fn km_run<F: HF, D: Distance<F> + Clone + std::fmt::Debug + 'static>(
     }
     Ok(steps)
 }
-fn km_go<F: HF>(m: Met, k: usize, init: Option<&Vec<Vec<f64>>>, seed: u64, tol: f64, d: usize, batches: &[Vec<Vec<f64>>]) -> Result<Vec<KStep>, String> {
+#[allow(clippy::too_many_arguments)]
+fn km_go<F: HF>(m: Met, k: usize, init: Option<&Vec<Vec<f64>>>, init_f: bool, rot0: u64, seed: u64, tol: f64, d: usize, batches: &[Vec<Vec<f64>>]) -> Result<Vec<KStep>, String> {
     let (i2, b2) = (init.cloned(), batches.to_vec());
     match guarded(move || match m {
-        Met::L1 => km_run::<F, _>(L1Dist, k, i2.as_ref(), seed, tol, d, &b2),
-        Met::L2 => km_run::<F, _>(L2Dist, k, i2.as_ref(), seed, tol, d, &b2),
-        Met::Linf => km_run::<F, _>(LInfDist, k, i2.as_ref(), seed, tol, d, &b2),
+        Met::L1 => km_run::<F, _>(L1Dist, k, i2.as_ref(), init_f, rot0, seed, tol, d, &b2),
+        Met::L2 => km_run::<F, _>(L2Dist, k, i2.as_ref(), init_f, rot0, seed, tol, d, &b2),
+        Met::Linf => km_run::<F, _>(LInfDist, k, i2.as_ref(), init_f, rot0, seed, tol, d, &b2),
     }) { Ok(r) => r, Err(p) => Err(format!("PANIC: {}", p)) }
 }
 /// distance between two centroid matrices as the library computes it (sequential folds in the element type;
 /// the L2 square root is taken in f64 and rounded back)
-fn cdist<F: HF>(m: Met, a: &[Vec<f64>], b: &[Vec<f64>]) -> f64 {
-    let fa: Vec<F> = a.concat().iter().map(|v| F::of64(*v)).collect();
-    let fb: Vec<F> = b.concat().iter().map(|v| F::of64(*v)).collect();
+fn cdist<F: HF>(m: Met, a: &[Vec<f64>], b: &[Vec<f64>], colmajor: bool) -> f64 {
+    // column-major centroid matrices are folded column by column
+    let flat = |x: &[Vec<f64>]| -> Vec<F> {
+        if colmajor { let d = x[0].len(); (0..d).flat_map(|j| x.iter().map(move |r| F::of64(r[j]))).collect() } else { x.concat().iter().map(|v| F::of64(*v)).collect() }
+    };
+    let (fa, fb) = (flat(a), flat(b));
     match m {
         Met::L2 => F::of64(fa.iter().zip(&fb).fold(F::zero(), |acc, (x, y)| acc + (*x - *y) * (*x - *y)).to64().sqrt()).to64(),
         Met::L1 => fa.iter().zip(&fb).fold(F::zero(), |acc, (x, y)| acc + (*x - *y).abs()).to64(),
@@ -458,8 +624,10 @@ fn km_case<F: HF>(out: &mut Out, id: u64, r: &mut Sm64, thorough: bool) {
         p.iter().map(|v| rnd::<F>(*v)).collect()
     };
     let random_init = r.chance(0.2);
+    let sk: i32 = [0, -40, 0, -20, 20, 0, 40][(id % 7) as usize];
+    let sc = 2f64.powi(sk);
     let first_n = if random_init { k + r.below(8) as usize } else { 1 + r.below(10) as usize };
-    let batches: Vec<Vec<Vec<f64>>> = (0..nb).map(|b| (0..(if b == 0 { first_n } else { 1 + r.below(12) as usize })).map(|_| point(r)).collect()).collect();
+    let batches: Vec<Vec<Vec<f64>>> = (0..nb).map(|b| (0..(if b == 0 { first_n } else { 1 + r.below(12) as usize })).map(|_| point(r).iter().map(|v| v * sc).collect()).collect()).collect();
     let seed = r.below(1000);
     let init: Vec<Vec<f64>> = if random_init {
         // KMeansInit::Random = rand::seq::index::sample on a clone of the parameter RNG (first batch)
@@ -468,40 +636,47 @@ fn km_case<F: HF>(out: &mut Out, id: u64, r: &mut Sm64, thorough: bool) {
     } else {
         (0..k).map(|c| match r.below(4) {
             0 => batches[0][r.below(batches[0].len() as u64) as usize].clone(),
-            1 => (0..d).map(|_| 500.0 + c as f64).collect(),          // far away: never receives a point
-            _ => point(r),
+            1 => (0..d).map(|_| (500.0 + c as f64) * sc).collect(),   // far away: never receives a point
+            _ => point(r).iter().map(|v| v * sc).collect(),
         }).collect()
     };
-    let mut tol = rnd::<F>(*r.pick(&[if F::F32 { 1e-30 } else { 1e-300 }, 1e-4, 0.05, 0.5, 2.0, 1e9]));
+    // the tolerance is a distance: it carries the unit of the data and is scaled with them
+    let mut tol = rnd::<F>(*r.pick(&[if F::F32 { 1e-30 } else { 1e-300 }, 1e-4, 0.05, 0.5, 2.0, 1e9]) * sc);
+    let init_f = !random_init && r.chance(0.35);
+    let rot0 = id;
     let mut border = false;
     if r.chance(0.35) {
         // put the tolerance exactly on an observed centroid shift: `dist < tol` must answer "not converged"
-        if let Ok(steps) = km_go::<F>(m, k, if random_init { None } else { Some(&init) }, seed, tol, d, &batches) {
+        if let Ok(steps) = km_go::<F>(m, k, if random_init { None } else { Some(&init) }, init_f, rot0, seed, tol, d, &batches) {
             let s = r.below(steps.len() as u64) as usize;
             let prev = if s == 0 { init.clone() } else { steps[s - 1].centroids.clone() };
-            let t = cdist::<F>(m, &prev, &steps[s].centroids);
+            let t = cdist::<F>(m, &prev, &steps[s].centroids, init_f);
             if t.is_finite() && t > 0.0 { tol = t; border = true; }
         }
     }
     let mname = format!("{:?}", m);
-    let tags = vec!["kmeans".to_string(), format!("metric_{}", mname), if F::F32 { "f32".into() } else { "f64".into() }];
+    let tags = vec!["kmeans".to_string(), format!("metric_{}", mname), if F::F32 { "f32".into() } else { "f64".into() },
+                    format!("scale_{}", sk), format!("lay_first_{}", Lay::rot(rot0).name()), if init_f { "init_colmajor".into() } else { "init_std".into() }];
     let tagrefs: Vec<&str> = tags.iter().map(|s| s.as_str()).collect();
     let desc = format!(
-        "{{\"learner\": \"kmeans_incremental\", \"float\": {}, \"metric\": {}, \"k\": {}, \"d\": {}, \"tol\": {:e}, \"tol_on_border\": {}, \"batches\": {:?}, \"init\": {}, \"seed\": {}, \"kind\": {}, \"first_row\": {:?}}}",
-        jstr(if F::F32 { "f32" } else { "f64" }), jstr(&mname), k, d, tol, border, batches.iter().map(|b| b.len()).collect::<Vec<_>>(), jstr(if random_init { "random" } else { "precomputed" }), seed, kind, batches[0][0]
+        "{{\"learner\": \"kmeans_incremental\", \"float\": {}, \"scale_log2\": {}, \"batch_layouts\": {:?}, \"init_colmajor\": {}, \"metric\": {}, \"k\": {}, \"d\": {}, \"tol\": {:e}, \"tol_on_border\": {}, \"batches\": {:?}, \"init\": {}, \"seed\": {}, \"kind\": {}, \"first_row\": {:?}}}",
+        jstr(if F::F32 { "f32" } else { "f64" }), sk, (0..nb).map(|b| Lay::rot(rot0 + b as u64).name()).collect::<Vec<_>>(), init_f, jstr(&mname), k, d, tol, border, batches.iter().map(|b| b.len()).collect::<Vec<_>>(), jstr(if random_init { "random" } else { "precomputed" }), seed, kind, batches[0][0]
     );
     out.bump("kmeans_cases");
     out.bump(if F::F32 { "kmeans_f32" } else { "kmeans_f64" });
+    out.bump(&format!("kmeans_scale_2^{}", sk));
+    for b in 0..nb { out.bump(&format!("kmeans_batch_layout_{}", Lay::rot(rot0 + b as u64).name())); }
+    if init_f { out.bump("kmeans_init_colmajor"); }
     out.bump(&format!("kmeans_metric_{}", mname));
     out.bump(if random_init { "kmeans_init_random" } else { "kmeans_init_precomputed" });
     if border { out.bump("kmeans_tol_on_border"); }
-    match km_go::<F>(m, k, if random_init { None } else { Some(&init) }, seed, tol, d, &batches) {
+    match km_go::<F>(m, k, if random_init { None } else { Some(&init) }, init_f, rot0, seed, tol, d, &batches) {
         Err(e) => { out.rust_fail(id, 1 << 21, &tagrefs, &format!("fit_with failed on valid batches: {}", e), &desc); out.rust_eval(&desc, None); }
         Ok(steps) => {
             out.bump_by("kmeans_steps", steps.len() as u64);
             out.bump_by("kmeans_steps_converged", steps.iter().filter(|s| s.ok).count() as u64);
             // history is a function of the batches alone: a second run reproduces every bit
-            if let Ok(again) = km_go::<F>(m, k, if random_init { None } else { Some(&init) }, seed, tol, d, &batches) {
+            if let Ok(again) = km_go::<F>(m, k, if random_init { None } else { Some(&init) }, init_f, rot0, seed, tol, d, &batches) {
                 let same = steps.iter().zip(&again).all(|(a, b)| a.ok == b.ok && a.inertia.to_bits() == b.inertia.to_bits()
                     && a.centroids.concat().iter().zip(b.centroids.concat().iter()).all(|(u, v)| u.to_bits() == v.to_bits()));
                 if !same { out.rust_fail(id, 1 << 22, &tagrefs, "two runs of the same history differ", &desc); }
@@ -510,8 +685,8 @@ fn km_case<F: HF>(out: &mut Out, id: u64, r: &mut Sm64, thorough: bool) {
                 "{{| ks_X := {}; ks_centroids := {}; ks_counts := {}; ks_inertia := {}; ks_ok := {} |}}",
                 cmat64(&s.x), cmat64(&s.centroids), cvec64(&s.counts), sf64(s.inertia), cbool(s.ok))).collect();
             let coq = format!(
-                "{{| c_id := {}; c_body := KM {{| kc_f32 := {}; kc_metric := {}; kc_tol := {}; kc_init := {}; kc_steps := [{}] |}} |}}",
-                cn(id), cbool(F::F32), mname, sf64(tol), cmat64(&init), st.join("; ")
+                "{{| c_id := {}; c_body := KM {{| kc_f32 := {}; kc_initF := {}; kc_metric := {}; kc_tol := {}; kc_init := {}; kc_steps := [{}] |}} |}}",
+                cn(id), cbool(F::F32), cbool(init_f), mname, sf64(tol), cmat64(&init), st.join("; ")
             );
             let key = if k > 1 && nb > 1 { Some(fnv_f64s(&batches.concat().concat(), id)) } else { None };
             out.case(id, &coq, &tagrefs, &desc, key);
@@ -532,16 +707,27 @@ fn ftrl_from_parts<F: HF>(alpha: f64, beta: f64, l1: f64, l2: f64, z: &[f64], n:
 
 fn ftrl_case<F: HF>(out: &mut Out, id: u64, r: &mut Sm64, thorough: bool) {
     let d = 1 + r.below(5) as usize;
-    let alpha = rnd::<F>(*r.pick(&[0.005, 0.1, 1.0, 2.5]));
-    let beta = rnd::<F>(*r.pick(&[0.0, 0.5, 1.0, 3.0]));
-    let l1 = rnd::<F>(*r.pick(&[0.0, 0.1, 0.5, 0.5, 1.0]));
-    let mut l2 = rnd::<F>(*r.pick(&[0.0, 0.3, 1.0]));
+    // units (x -> s x): gradients and z scale by s, n by s^2; the update is covariant when beta and l1 scale by s,
+    // l2 by s^2 and alpha by 1/s (the weights then scale by 1/s and every probability is unchanged).  The guard
+    // bounds l1_ratio and l2_ratio by the ABSOLUTE interval [0, 1], so for s > 1 they are left unscaled (tag
+    // ftrl_l1l2_unscaled: no covariance there, the recurrence oracles still judge the run), and a fresh model draws z
+    // from the ABSOLUTE interval U(0,1) whatever the scale of the data.
+    let sk: i32 = [0, -40, 0, -20, 20, 0, 40][(id % 7) as usize];
+    let sc = 2f64.powi(sk);
+    let alpha = rnd::<F>(*r.pick(&[0.005, 0.1, 1.0, 2.5]) / sc);
+    let beta = rnd::<F>(*r.pick(&[0.0, 0.5, 1.0, 3.0]) * sc);
+    let (sc1, sc2) = if sk > 0 { (1.0, 1.0) } else { (sc, sc * sc) };
+    // at f32 an upscaled run with unscaled l1 / l2 (weights 2^80 too large for the units of the data) overflows the
+    // element type (sigma * w ~ 1e39): there only l1 = l2 = 0, whose scaled images are inside [0, 1], are generated
+    let no_reg = F::F32 && sk > 0;
+    let l1 = rnd::<F>(*r.pick(&[0.0, 0.1, 0.5, 0.5, 1.0]) * if no_reg { 0.0 } else { sc1 });
+    let mut l2 = rnd::<F>(*r.pick(&[0.0, 0.3, 1.0]) * if no_reg { 0.0 } else { sc2 });
     // beta = 0 and l2 = 0 pass the parameter guard (beta = 0 is the default, l2 = 0 is inside [0, 1]) but make the
     // weight denominator (sqrt n + beta)/alpha + l2 vanish wherever n = 0: a coordinate with |z| > l1 - every fresh
     // model draws z from U(0,1) - gets an infinite weight and the next update makes the state non-finite for ever
     // (finding F-C15-2).  Two thirds of these draws keep the corner (tagged, with the IEEE expectation on the
     // weights); the rest move to l2 = 0.3 as before.
-    if beta == 0.0 && l2 == 0.0 && r.chance(0.34) { l2 = rnd::<F>(0.3); }
+    if beta == 0.0 && l2 == 0.0 && r.chance(0.34) && !no_reg { l2 = rnd::<F>(0.3 * sc2); }
     let corner_params = beta == 0.0 && l2 == 0.0;
     let seed = r.below(1000);
     let crafted = r.chance(0.4);
@@ -553,11 +739,13 @@ fn ftrl_case<F: HF>(out: &mut Out, id: u64, r: &mut Sm64, thorough: bool) {
     if crafted {
         // a state on and around the l1 border, both signs, signed zeros, some accumulated n
         let ulp = if F::F32 { f32::EPSILON as f64 } else { f64::EPSILON };
+        // the smallest excess over l1 (matters when l1 = 0): tiny, but far from the subnormal range at every scale
+        let tiny = if F::F32 { 1e-20 } else { 1e-120 } * sc;
         let z: Vec<f64> = (0..d).map(|_| rnd::<F>(match r.below(8) {
-            0 => l1, 1 => -l1, 2 => l1 + l1 * ulp + 1e-300, 3 => -(l1 + l1 * ulp + 1e-300), 4 => 0.0, 5 => -0.0,
-            6 => l1 * 0.999, _ => (r.unit() - 0.5) * 6.0,
+            0 => l1, 1 => -l1, 2 => l1 + l1 * ulp + tiny, 3 => -(l1 + l1 * ulp + tiny), 4 => 0.0, 5 => -0.0,
+            6 => l1 * 0.999, _ => (r.unit() - 0.5) * 6.0 * sc,
         })).collect();
-        let n: Vec<f64> = (0..d).map(|_| rnd::<F>(if r.chance(0.4) { 0.0 } else { (r.unit() * 3.0).powi(2) })).collect();
+        let n: Vec<f64> = (0..d).map(|_| rnd::<F>(if r.chance(0.4) { 0.0 } else { (r.unit() * 3.0).powi(2) * sc * sc })).collect();
         model = ftrl_from_parts::<F>(alpha, beta, l1, l2, &z, &n);
     }
     let z0 = vec64(model.z());
@@ -565,7 +753,8 @@ fn ftrl_case<F: HF>(out: &mut Out, id: u64, r: &mut Sm64, thorough: bool) {
     let w0 = vec64(&model.get_weights());
     // decidable from the input: some coordinate of the initial state has a vanishing denominator and |z| > l1
     let zero_den = corner_params && z0.iter().zip(&n0).any(|(z, n)| *n == 0.0 && z.abs() > l1);
-    let mut tags = vec!["ftrl".to_string(), if F::F32 { "f32".into() } else { "f64".into() }];
+    let mut tags = vec!["ftrl".to_string(), if F::F32 { "f32".into() } else { "f64".into() }, format!("scale_{}", sk), format!("lay_first_{}", Lay::rot(id).name())];
+    if sk > 0 && (l1 != 0.0 || l2 != 0.0) { tags.push("ftrl_l1l2_unscaled".into()); }
     if zero_den { tags.push("ftrl_zero_denominator".into()); }
     let tagrefs: Vec<&str> = tags.iter().map(|s| s.as_str()).collect();
     let nsteps = 1 + r.below(if thorough { 8 } else { 5 }) as usize;
@@ -573,11 +762,21 @@ fn ftrl_case<F: HF>(out: &mut Out, id: u64, r: &mut Sm64, thorough: bool) {
     let mut nfit = 0;
     let mut zero_w = w0.iter().filter(|w| **w == 0.0).count();
     let mut inf_w = w0.iter().filter(|w| w.is_infinite()).count();
-    for _ in 0..nsteps {
-        let n = if d == 1 && r.chance(0.5) { 8 + r.below(20) as usize } else { 1 + r.below(14) as usize };
-        let x: Vec<Vec<f64>> = (0..n).map(|_| (0..d).map(|_| rnd::<F>(match r.below(4) { 0 => 0.0, 1 => r.range(-2, 2) as f64, _ => r.gauss() })).collect()).collect();
+    let mut lays: Vec<&'static str> = Vec::new();
+    for si in 0..nsteps {
+        // column-major batches have contiguous columns: `diff.dot(x)` then takes the 8-lane kernel, which differs from
+        // the sequential one from 8 rows on - a third of the batches are that long whatever d
+        let n = if r.chance(if d == 1 { 0.5 } else { 0.33 }) { 8 + r.below(20) as usize } else { 1 + r.below(14) as usize };
+        let x: Vec<Vec<f64>> = (0..n).map(|_| (0..d).map(|_| rnd::<F>(match r.below(4) { 0 => 0.0, 1 => r.range(-2, 2) as f64, _ => r.gauss() }) * sc).collect()).collect();
         let y: Vec<bool> = (0..n).map(|_| r.chance(0.5)).collect();
-        let ds = Dataset::new(arr::<F>(&x, d), Array1::from(y.clone()));
+        let laid = Laid::<F>::new(&x, d, Lay::rot(id + si as u64));
+        let ty = LaidT::new(&y, id + si as u64, true);
+        let contig = laid.cols_contiguous();
+        lays.push(laid.lay.name());
+        out.bump(&format!("ftrl_batch_layout_{}", laid.lay.name()));
+        if contig && n >= 8 { out.bump("ftrl_batches_unrolled_dot_kernel"); }
+        with_recs!(laid, recs => {
+        let ds = DatasetBase::new(recs, ty.view());
         let use_fit = r.chance(0.5);
         let ps: Vec<f32> = if use_fit {
             // the probabilities fit_with computes itself are observable through predict on the same state
@@ -601,15 +800,17 @@ fn ftrl_case<F: HF>(out: &mut Out, id: u64, r: &mut Sm64, thorough: bool) {
         zero_w += w.iter().filter(|v| **v == 0.0).count();
         inf_w += w.iter().filter(|v| v.is_infinite()).count();
         steps.push(format!(
-            "{{| fs_X := {}; fs_y := {}; fs_p := {}; fs_z := {}; fs_n := {}; fs_w := {} |}}",
-            cmat64(&x), clist(&y, |b| cbool(*b).to_string()), cvec64(&ps.iter().map(|p| *p as f64).collect::<Vec<_>>()),
+            "{{| fs_contig := {}; fs_X := {}; fs_y := {}; fs_p := {}; fs_z := {}; fs_n := {}; fs_w := {} |}}",
+            cbool(contig), cmat64(&x), clist(&y, |b| cbool(*b).to_string()), cvec64(&ps.iter().map(|p| *p as f64).collect::<Vec<_>>()),
             cvec64(&vec64(model.z())), cvec64(&vec64(model.n())), cvec64(&w)
         ));
+        });
     }
     // sigmoid sanity of predict (model-free), wherever the weights are finite
     {
-        let x: Vec<Vec<f64>> = (0..4).map(|_| (0..d).map(|_| rnd::<F>(3.0 * r.gauss())).collect()).collect();
-        let xa = arr::<F>(&x, d);
+        let x: Vec<Vec<f64>> = (0..4).map(|_| (0..d).map(|_| rnd::<F>(3.0 * r.gauss()) * sc).collect()).collect();
+        let xl = Laid::<F>::new(&x, d, Lay::rot(id + 3));
+        let xa = xl.view();
         let w = vec64(&model.get_weights());
         if w.iter().all(|v| v.is_finite()) {
             let p = model.predict(&xa);
@@ -623,11 +824,12 @@ fn ftrl_case<F: HF>(out: &mut Out, id: u64, r: &mut Sm64, thorough: bool) {
         }
     }
     let desc = format!(
-        "{{\"learner\": \"ftrl\", \"float\": {}, \"d\": {}, \"alpha\": {}, \"beta\": {}, \"l1\": {}, \"l2\": {}, \"seed\": {}, \"crafted_state\": {}, \"zero_denominator\": {}, \"steps\": {}, \"fit_with_steps\": {}, \"z0\": {:?}}}",
-        jstr(if F::F32 { "f32" } else { "f64" }), d, alpha, beta, l1, l2, seed, crafted, zero_den, nsteps, nfit, z0
+        "{{\"learner\": \"ftrl\", \"float\": {}, \"scale_log2\": {}, \"batch_layouts\": {:?}, \"d\": {}, \"alpha\": {}, \"beta\": {}, \"l1\": {}, \"l2\": {}, \"seed\": {}, \"crafted_state\": {}, \"zero_denominator\": {}, \"steps\": {}, \"fit_with_steps\": {}, \"z0\": {:?}}}",
+        jstr(if F::F32 { "f32" } else { "f64" }), sk, lays, d, alpha, beta, l1, l2, seed, crafted, zero_den, nsteps, nfit, z0
     );
     out.bump("ftrl_cases");
     out.bump(if F::F32 { "ftrl_f32" } else { "ftrl_f64" });
+    out.bump(&format!("ftrl_scale_2^{}", sk));
     out.bump_by("ftrl_steps", nsteps as u64);
     out.bump_by("ftrl_fit_with_steps", nfit as u64);
     out.bump_by("ftrl_zero_weights_seen", zero_w as u64);
@@ -647,6 +849,20 @@ fn main() {
     let mut rng = Sm64::new(args.seed);
     let thorough = args.tier == "thorough";
     let mut out = Out::new(&args.out, args.shards, "C15.Corr", "case", args.only);
+    // the presentations are what they claim to be (ndarray's `to_owned` keeps negative strides and F order)
+    {
+        let rows = vec![vec![1.0, 2.0], vec![3.0, 4.0], vec![5.0, 6.0]];
+        for lay in LAYS.iter() {
+            let l = Laid::<f64>::new(&rows, 2, *lay);
+            assert!(l.view() == arr::<f64>(&rows, 2).view(), "layout {:?} does not present the logical matrix", lay);
+            if let Some(o) = l.owned() { assert!(o == arr::<f64>(&rows, 2) && o.strides() == l.view().strides(), "owned layout {:?} lost its strides", lay); }
+        }
+        assert!(Laid::<f64>::new(&rows, 2, Lay::ColMajor).owned().unwrap().strides() == [1, 3]);
+        assert!(Laid::<f64>::new(&rows, 2, Lay::RevRowsOwned).owned().unwrap().strides() == [-2, 1]);
+        assert!(Laid::<f64>::new(&rows, 2, Lay::RevColsOwned).owned().unwrap().strides() == [2, -1]);
+        assert!(Laid::<f64>::new(&rows, 2, Lay::Strided).view().strides() == [8, 2]);
+        assert!(LaidT::new(&[1usize, 2, 3], 1, 0).view().to_vec() == vec![1, 2, 3] && LaidT::new(&[1usize, 2, 3], 2, 0).view().to_vec() == vec![1, 2, 3]);
+    }
     let repaired = gnb_repaired();
     if repaired { out.bump("gnb_repaired_source"); }
     let (n_exh, n_rand, n_km, n_ft) = if thorough { (120, 500, 700, 900) } else { (40, 90, 150, 190) };
@@ -662,5 +878,5 @@ fn main() {
     for _ in 0..m_rand { let mut r = rng.fork(); nb_case::<f32>(&mut out, id, &mut r, false, thorough, repaired); id += 1; }
     for _ in 0..m_km { let mut r = rng.fork(); km_case::<f32>(&mut out, id, &mut r, thorough); id += 1; }
     for _ in 0..m_ft { let mut r = rng.fork(); ftrl_case::<f32>(&mut out, id, &mut r, thorough); id += 1; }
-    out.finish("each learner at f64 and (about a quarter of the cases) at f32. naive Bayes: datasets from 5 families x {gaussian, multinomial} x smoothing values, cut into every composition of n<=8 rows (exhaustive stream; n<=5 at f32) or into random unequal cuts, single-row batches, n-1|1 and 1|n-1 (random stream), shuffled or sorted by class (class-incomplete batches), k identical blocks (equal epsilons); k-means: 4 data families x 3 metrics x precomputed/random initial centroids (far-away centroids that never receive a point, tolerance placed exactly on an observed shift); FTRL: hyper-parameter grid (including beta = 0 with l2 = 0: vanishing weight denominator) x seeds x crafted states on the l1 border x update/fit_with steps. non-trivial: naive Bayes with >= 2 classes and a history of >= 2 batches, k-means with k > 1 and >= 2 batches, every FTRL history; distinct = distinct (data, id) hashes");
+    out.finish("each learner at f64 and (about a quarter of the cases) at f32; every batch / query matrix in one of 7 memory layouts of the same logical data (row-major, column-major, reversed rows / columns as views and as owned arrays with negative strides, every second row and column of a larger array; rotating with id + history + batch), targets in 3 presentations, k-means Precomputed centroids column-major in a third of the precomputed cases; data scaled by 2^-40, 2^-20, 1 (3/7), 2^20, 2^40 with the unit-carrying hyper-parameters (multinomial alpha, k-means tolerance, FTRL alpha / beta and, downwards, l1 / l2). naive Bayes: datasets from 5 families x {gaussian, multinomial} x smoothing values, cut into every composition of n<=8 rows (exhaustive stream; n<=5 at f32) or into random unequal cuts, single-row batches, n-1|1 and 1|n-1 (random stream), shuffled or sorted by class (class-incomplete batches), k identical blocks (equal epsilons); k-means: 4 data families x 3 metrics x precomputed/random initial centroids (far-away centroids that never receive a point, tolerance placed exactly on an observed shift); FTRL: hyper-parameter grid (including beta = 0 with l2 = 0: vanishing weight denominator) x seeds x crafted states on the l1 border x update/fit_with steps. non-trivial: naive Bayes with >= 2 classes and a history of >= 2 batches, k-means with k > 1 and >= 2 batches, every FTRL history; distinct = distinct (data, id) hashes");
 }
